@@ -100,3 +100,11 @@ Theorem C02_hash_find_order_irrelevant : forall m ml l pos es es',
   hash_find m ml es' l pos = hash_find m ml es l pos.
 Proof. exact hash_find_order_irrelevant. Qed.
 Print Assumptions C02_hash_find_order_irrelevant.
+
+(* The push limit as coded (`new_pos >= self.limit`): an accepted push leaves
+   the message strictly shorter than the limit. *)
+Theorem C02_push_ok_below_limit : forall c ops s0 s a ws o s' l,
+  init c = Some s0 -> run_acc c s0 acc0 ops = (s, a, ws) -> all_alive ws ->
+  step c s o = (s', ROk) -> b_limit s = Some l -> mlen (w_buf (b_w s')) < l.
+Proof. exact push_ok_below_limit. Qed.
+Print Assumptions C02_push_ok_below_limit.
